@@ -186,9 +186,15 @@ class XF(float):
 # ----------------------------------------------------------------------------
 # problems
 # ----------------------------------------------------------------------------
-def lattice_problem(nobjs, nconstrs, maxdirs, levels):
-    """three real variables in [0,1] cut into `levels` cells each; INTEGER-valued objectives / constraint"""
+def lattice_problem(nobjs, conmode, maxdirs, levels, shift=0, scale=1.0):
+    """three real variables in [0,1] cut into `levels` cells each; objectives on an integer lattice (times `scale`, a power
+    of two, minus `shift`: negative values), optional constraint:
+      conmode "graded"   violation = a + b - L where positive (many levels)
+              "passfail" constraint value 1 (<= 0 wanted) unless the point is in a SMALL feasible region: violation in {0, 1}
+              "ne"       a "!=0" constraint that is 0 outside the feasible region: violation in {0, 1}
+              "levels2"  violation in {0, 1, 2}: large groups of infeasible points share one positive level"""
     from platypus import Problem, Real, Direction
+    nconstrs = 1 if conmode else 0
 
     class LatticeProblem(Problem):
         def __init__(self):
@@ -198,7 +204,7 @@ def lattice_problem(nobjs, nconstrs, maxdirs, levels):
                 if mx:
                     self.directions[i] = Direction.MAXIMIZE
             if nconstrs:
-                self.constraints[:] = "<=0"
+                self.constraints[:] = "!=0" if conmode == "ne" else "<=0"
 
         def evaluate(self, solution):
             L = levels
@@ -213,10 +219,19 @@ def lattice_problem(nobjs, nconstrs, maxdirs, levels):
                 g = [(a - M // 3) ** 2 + (b - M // 2) ** 2 + (c - M) ** 2]
             else:
                 g = [a + b, (M - a) + c, b + c, 2 * (M - b) + a, (M - c) + a + b][:nobjs]
-            objs = [XF(float((3 * M - v) if mx else v)) for v, mx in zip(g, maxdirs)]
+            objs = [XF((float((3 * M - v) if mx else v) - shift) * scale) for v, mx in zip(g, maxdirs)]
             solution.objectives[:] = objs
             if nconstrs:
-                solution.constraints[:] = [float(a + b - L)] + [0.0] * (nconstrs - 1)
+                feasible_small = (a == M and b <= 1) or (a + b + c == 0)
+                if conmode in (True, "graded"):
+                    val = float(a + b - L)
+                elif conmode == "passfail":
+                    val = 0.0 if feasible_small else 1.0
+                elif conmode == "ne":
+                    val = 1.0 if feasible_small else 0.0
+                else:
+                    val = 0.0 if feasible_small else float(1 + (c % 2))
+                solution.constraints[:] = [val]
 
     return LatticeProblem()
 
@@ -235,7 +250,7 @@ def build_lattice(cfg, _problem=None, _generator=None):
     name = cfg["name"]
     if _problem is None:
         random.seed(cfg["seed"])
-    p = _problem if _problem is not None else lattice_problem(cfg["nobjs"], 1 if cfg["con"] else 0, cfg["dirs"], cfg["levels"])
+    p = _problem if _problem is not None else lattice_problem(cfg["nobjs"], cfg["con"], cfg["dirs"], cfg["levels"], cfg.get("shift", 0), cfg.get("scale", 1.0))
     pop = cfg["pop"]
     eps = cfg.get("eps") or [2.0]
     if cfg.get("inject") and not _generator:
@@ -522,6 +537,32 @@ def front_of(U, cmp):
     return [x for x in U if not any(cmp.compare(y, x) < 0 for y in U if y is not x)]
 
 
+def spec_dominates(a, b, epsilons=None):
+    """INDEPENDENT statement of "a dominates b in the archive's relation", in exact fractions (no call into the library's
+    comparators).  Smaller constraint violation first.  epsilons=None: Pareto dominance on the direction-adjusted objectives.
+    Otherwise the documented epsilon-box relation: box index = floor(adjusted objective / epsilon) (the last epsilon is reused);
+    a's box Pareto-dominates b's box, or same box and a is strictly nearer to the box's ideal corner
+    (offset = value - index*epsilon, measured from the LOWER corner whatever the sign of the value)."""
+    from platypus import Direction
+    pr = a.problem
+    if pr.nconstrs > 0:
+        ca, cb = Fraction(float(a.constraint_violation)), Fraction(float(b.constraint_violation))
+        if ca != cb:
+            return ca < cb
+    xa = [(-1 if pr.directions[i] == Direction.MAXIMIZE else 1) * Fraction(float(a.objectives[i])) for i in range(pr.nobjs)]
+    xb = [(-1 if pr.directions[i] == Direction.MAXIMIZE else 1) * Fraction(float(b.objectives[i])) for i in range(pr.nobjs)]
+    if epsilons is None:
+        return all(x <= y for x, y in zip(xa, xb)) and any(x < y for x, y in zip(xa, xb))
+    es = [Fraction(float(epsilons[i if i < len(epsilons) else -1])) for i in range(pr.nobjs)]
+    ia = [math.floor(x / e) for x, e in zip(xa, es)]
+    ib = [math.floor(x / e) for x, e in zip(xb, es)]
+    if ia != ib:
+        return all(x <= y for x, y in zip(ia, ib)) and any(x < y for x, y in zip(ia, ib))
+    da = sum((x - i * e) ** 2 for x, i, e in zip(xa, ia, es))
+    db = sum((x - i * e) ** 2 for x, i, e in zip(xb, ib, es))
+    return da < db
+
+
 def so_key(s):
     """single objective: constraint violation first, then the objective in its direction"""
     from platypus import Direction
@@ -589,8 +630,28 @@ def oracle_run(ctx, cfg, obs, report=True):
         from platypus import EpsilonDominance as ED
         d = arch._dominance
         rel = ED(list(d.epsilons)) if isinstance(d, ED) else fresh_pareto()
+        # the independent relation (exact fractions): always for Pareto archives; for epsilon archives on the lattice problems,
+        # where o/eps and the corner offsets are exact in binary64 (on arbitrary floats the library's floor(o/eps) may legitimately
+        # differ from the exact one at a box boundary)
+        spec_eps = [float(e) for e in d.epsilons] if isinstance(d, ED) else None
+        use_spec = (spec_eps is None) or cfg["problem"] == "lattice"
         snaps = [(t, s["result"]) for t, s in enumerate(obs.steps) if s["result"] is not None]
         dup = [0]
+        if use_spec:
+            for t, snap in snaps:
+                hit = next(((a, b) for i, a in enumerate(snap) for b in snap[i + 1:] if a is not b and (spec_dominates(a, b, spec_eps) or spec_dominates(b, a, spec_eps))), None)
+                if hit:
+                    viol("archive-members-not-mutually-nondominated-in-stated-relation",
+                         "result members %s and %s: one dominates the other in the %s (exact arithmetic); result: %s"
+                         % (desc(hit[0]), desc(hit[1]), "epsilon-box relation eps=%r" % spec_eps if spec_eps else "Pareto relation", [desc(x) for x in snap]), t)
+            pairs = list(zip(snaps, snaps[1:])) + [(snaps[i], snaps[j]) for i in range(0, len(snaps), 3) for j in range(i + 2, len(snaps), 4)]
+            for (t1, s1), (t2, s2) in pairs:
+                ids2 = set(id(x) for x in s2)
+                m = next((m for m in s1 if id(m) not in ids2 and not any(spec_dominates(m2, m, spec_eps) for m2 in s2)), None)
+                if m is not None:
+                    viol("archive-member-lost-undominated-in-stated-relation",
+                         "result member %s of step %d is neither in the result of step %d nor dominated, in the %s (exact arithmetic), by any of its members %s"
+                         % (desc(m), t1, t2, "epsilon-box relation eps=%r" % spec_eps if spec_eps else "Pareto relation", [desc(x) for x in s2]), t2)
         for t, snap in snaps:
             for i, a in enumerate(snap):
                 for b in snap[i + 1:]:
@@ -660,16 +721,19 @@ def oracle_run(ctx, cfg, obs, report=True):
 
 
 def cfg_label(cfg):
-    return "[%s objs=%d con=%d pop=%d seed=%d%s%s]" % (cfg["problem"], cfg["nobjs"], int(bool(cfg["con"])), cfg["pop"], cfg["seed"],
+    return "[%s objs=%d con=%s pop=%d seed=%d%s%s]" % (cfg["problem"], cfg["nobjs"], cfg["con"] if isinstance(cfg["con"], str) else int(bool(cfg["con"])), cfg["pop"], cfg["seed"],
                                                        " max=%s" % "".join("1" if d else "0" for d in cfg["dirs"]) if any(cfg["dirs"]) else "",
-                                                       " warm-start k=%d(%s)" % (cfg["inject"]["k"], cfg["inject"]["source"]) if cfg.get("inject") else "")
+                                                       (" warm-start k=%d(%s)" % (cfg["inject"]["k"], cfg["inject"]["source"]) if cfg.get("inject") else "")
+                                                       + (" shift=%r scale=%r" % (cfg.get("shift", 0), cfg.get("scale", 1.0)) if cfg.get("shift") or cfg.get("scale", 1.0) != 1.0 else "")
+                                                       + (" eps=%r" % cfg["eps"] if cfg.get("eps") else ""))
 
 
 # ----------------------------------------------------------------------------
 # Coq cases
 # ----------------------------------------------------------------------------
 def is_intlike(x):
-    x = float(x)
+    """a small multiple of 1/4: differences, squares and their sums are exact in binary64"""
+    x = float(x) * 4.0
     return x == x and abs(x) < 2 ** 20 and x == math.floor(x)
 
 
@@ -877,6 +941,33 @@ def gen_configs(ctx):
         # ES again: the first generation after an UNSORTED initial population is where a best parent can be dropped
         for pop in (4, 5, 6, 7, 8, 9, 10, 12):
             add("ES", "lattice" if rng.random() < 0.5 else "registry", 1, rng.random() < 0.3, pop, [False])
+        # pass/fail and few-level constraints: large groups of infeasible solutions share ONE positive violation and are then ranked by
+        # the objectives alone; the feasible region is small, so initial populations are entirely or mostly infeasible
+        for name, sizes in (("GDE3", [8, 10, 12, 6]), ("NSGAII", [6, 9]), ("SPEA2", [6, 8]), ("EpsNSGAII", [6]), ("NSGAIII", [3]), ("EpsMOEA", [5])):
+            for pop in sizes:
+                nobjs = 2 if name in ("GDE3", "NSGAIII") else rng.choice([2, 3])
+                kw = {"eps": eps_for(nobjs)} if name in ("EpsNSGAII", "EpsMOEA") else {}
+                add(name, "lattice", nobjs, rng.choice(["passfail", "ne", "levels2"]), pop, None if name == "NSGAIII" else dirs_for(nobjs),
+                    levels=rng.choice([6, 8]), steps=10, **kw)
+        for name in SINGLE:
+            add(name, "lattice", 1, rng.choice(["passfail", "ne", "levels2"]), 5, [rng.random() < 0.5], steps=10)
+        # epsilon archives with NEGATIVE working values: maximised objectives and/or minimised objectives shifted below zero, boxes
+        # that hold several lattice points (eps 4 / 8 on the integer lattice, eps 1 / 2 on the half-integer one)
+        for name, pop in (("EpsMOEA", 4), ("EpsMOEA", 6), ("EpsNSGAII", 4), ("EpsNSGAII", 6), ("OMOPSO", 5), ("OMOPSO", 4), ("CMAES", 6), ("CMAES", 4)):
+            for variant in range(2):
+                nobjs = rng.choice([2, 2, 3])
+                scale = rng.choice([1.0, 0.5])
+                e = [rng.choice([4.0, 8.0] if scale == 1.0 else [1.0, 2.0, 4.0]) for _ in range(rng.choice([1, nobjs]))]
+                if variant == 0:
+                    dirs = [True] * nobjs if rng.random() < 0.5 else [i % 2 == 0 for i in range(nobjs)]
+                    shift = rng.choice([0, 0, 30])
+                else:
+                    dirs = [False] * nobjs
+                    shift = rng.choice([20, 25, 40])        # every minimised value is negative
+                add(name, "lattice", nobjs, rng.random() < 0.25, pop, dirs, eps=e, shift=shift, scale=scale, levels=8, steps=12)
+        # plain archives on negative / maximised values
+        add("NSGAII", "lattice", 2, False, 5, [True, False], archive=True, shift=10, steps=10)
+        add("CMAES", "lattice", 2, False, 5, [True, True], shift=30, steps=10)
         # warm starts: the initial population is injected ALREADY EVALUATED (k <, =, > population size), taken from a previous
         # short run or hand-made; the boundary after initialisation is the baseline for every later one
         for name, pop in (("GA", 4), ("ES", 5), ("NSGAII", 5), ("SPEA2", 4), ("GDE3", 5), ("EpsNSGAII", 4), ("EpsMOEA", 4), ("OMOPSO", 4)):
@@ -967,7 +1058,8 @@ def run(ctx):
     ctx.coverage["runs_per_algorithm"] = per_alg
     ctx.coverage["input_distribution"] = {
         "objectives": sorted(set(c["nobjs"] for c in cfgs)), "population_sizes": sorted(set(c["pop"] for c in cfgs)),
-        "constrained_runs": sum(1 for c in cfgs if c["con"]), "runs_with_maximised_objective": sum(1 for c in cfgs if any(c["dirs"])),
+        "constrained_runs": sum(1 for c in cfgs if c["con"]), "pass_fail_or_few_level_constraint_runs": sum(1 for c in cfgs if isinstance(c["con"], str)),
+        "runs_with_negative_objective_values": sum(1 for c in cfgs if c.get("shift")), "eps_archive_runs_with_negative_working_values": sum(1 for c in cfgs if c.get("eps") and (c.get("shift") or any(c["dirs"]))), "runs_with_maximised_objective": sum(1 for c in cfgs if any(c["dirs"])),
         "lattice_runs": sum(1 for c in cfgs if c["problem"] == "lattice"), "float_runs": sum(1 for c in cfgs if c["problem"] != "lattice")}
     warm = {"k<n": 0, "k=n": 0, "k>n": 0, "from_previous_run": 0, "hand_made": 0}
     for c in cfgs:
